@@ -336,7 +336,7 @@ func main() {
 			fatal("violation %q reproduced %d/5 times from %s: nondeterministic harness, not reported as a violation", v.Key, confirmed, rpath)
 		}
 		if desc, ok := kf.known[id+"\x00"+v.Key]; ok {
-			knownLines = append(knownLines, fmt.Sprintf("KNOWN-FINDING: property=%s %s", id, desc))
+			knownLines = append(knownLines, "KNOWN-FINDING: "+desc)
 			_ = os.Remove(rpath)
 			continue
 		}
